@@ -1261,6 +1261,9 @@ impl World {
                     if reset_at > 0 && sid >> 2 == 0 && o.written >= reset_at && app.is_client {
                         let r = conn.send_stream(id).reset(VarInt::from_u32(55));
                         o.reset = true;
+                        // give the RESET_STREAM time to arrive before the connection is closed
+                        app.hold_close_until = app.hold_close_until.max(now_us + 300_000);
+                        new_app_wake = Some(app.hold_close_until);
                         tr.push(vec![3, t, e, c, 4, sid as i128, 55, r.is_ok() as i128]);
                         did = true;
                         break;
